@@ -77,6 +77,9 @@ func cmdWorker(args []string) {
 
 // ---- run: shards the case file over isolated workers, restarts them on crashes / hangs ----
 
+// sessLen is the number of consecutive random cases that share one Plenc instance.
+const sessLen = 50
+
 type shardRes struct {
 	lines map[int][]byte
 }
@@ -101,6 +104,7 @@ func cmdRun(args []string) {
 	results := make([][]byte, n)
 	var wg sync.WaitGroup
 	per := (n + *nw - 1) / *nw
+	per = (per + sessLen - 1) / sessLen * sessLen // sessions (cases sharing one Plenc instance) are never split
 	for s := 0; s < *nw; s++ {
 		lo, hi := s*per, (s+1)*per
 		if hi > n {
